@@ -7,7 +7,7 @@
      - transform: gathering the per-group result (with its trailing null slot) by
        the row codes. *)
 From Coq Require Import List ZArith Lia Bool Arith.
-From GL Require Import Lib.Arr Model.Dom.
+From GL Require Import Lib.Arr Model.Dom Model.Scalar Model.Reduce.
 Import ListNotations.
 Open Scope Z_scope.
 
@@ -41,3 +41,43 @@ Definition transform_gather (result : list V) (codes : list Z) : list V :=
   map (fun k => get (null o) result (if k <? 0 then Z.to_nat (k + Z.of_nat (length result)) else Z.to_nat k)) codes.
 
 End Values.
+
+(* ---- _apply_gb_func_across_chunked_group_keys, one value column ----
+   The keys are factorized per chunk: chunk j holds local codes (into its own dictionary)
+   and a pointer table p_j : local code -> global code.  The kernel runs per chunk; each
+   chunk's (result, count) arrays are merged into the global arrays through the pointer:
+       combined[pointer] = reduce_array_pair(combined[pointer], result, reducer,
+                                              counts=count[pointer], y_counts=chunk_count)
+       count[pointer]   += chunk_count
+   Granularity: the two aligned arrays (combined, count) are one array of (value, count)
+   cells; the vectorised gather/scatter through a duplicate-free pointer is the fold over
+   the local codes below. *)
+Section ChunkedKeys.
+Context {V : Type} (o : ops V).
+
+Definition scatter_cell (mf : V -> V -> Z -> V * Z) (x y : V * Z) : V * Z :=
+  ((if snd y =? 0 then fst x else fst (mf (fst x) (fst y) (snd x))), snd x + snd y).
+
+Definition scatter_chunk (mf : V -> V -> Z -> V * Z) (acc : list (V * Z)) (p : list nat) (local : list (V * Z))
+    : list (V * Z) :=
+  fold_left (fun a l => let g := get 0%nat p l in
+                        upd a g (scatter_cell mf (get (null o, 0) a g) (get (null o, 0) local l)))
+            (seq 0 (length p)) acc.
+
+(* _unify_group_key_chunks: local code -> global code through the pointer, null stays null *)
+Definition unify_code (p : list nat) (k : Z) : Z :=
+  if k <? 0 then -1 else Z.of_nat (get 0%nat p (Z.to_nat k)).
+Definition unify_codes (p : list nat) (codes : list Z) : list Z := map (unify_code p) codes.
+
+(* the per-chunk kernel call (ngroups = len(pointer), the trailing null slot is dropped) as cells *)
+Definition chunk_cells (r : rname) (np : nat) (rows : list (Z * V)) : list (V * Z) :=
+  let st := fold_left (fun st row => gbr_row o (reducer_of o r) st (fst row) (snd row)) rows
+                      (build_target o r np, repeat 0 np) in
+  combine (fst st) (snd st).
+
+(* the whole loop over the key chunks: chunk = (pointer, rows with chunk-local codes) *)
+Definition apply_across_chunks (r mr : rname) (ng : nat) (chunks : list (list nat * list (Z * V))) : list (V * Z) :=
+  fold_left (fun acc ch => scatter_chunk (reducer_of o mr) acc (fst ch) (chunk_cells r (length (fst ch)) (snd ch)))
+            chunks (chunk_cells r ng []).
+
+End ChunkedKeys.
